@@ -13,7 +13,7 @@
    All statements are over the constants the translator reads from eligibility.rs
    (TAYLOR_BOUND = iteration cap, TAYLOR_ERR_FACTOR = the `3` of the error term). *)
 From Coq Require Import Reals QArith Qcanon ZArith.
-From MV Require Import Base.Prelude Gen.Consts C08.Model C08.ProofsExp C08.ProofsLoop C08.ProofsLottery C08.ProofsWitness.
+From MV Require Import Base.Prelude Gen.Consts C08.Model C08.ProofsExp C08.ProofsSharp C08.ProofsLoop C08.ProofsFast C08.ProofsLottery C08.ProofsWitness.
 Open Scope R_scope.
 
 (* the code's comparison `q < exp x` is the property's `ev/2^512 < 1 - (1-phi_f)^(stake/total)` *)
@@ -38,36 +38,51 @@ Theorem C08_won_sound : forall phi c ev stake total,
   draw ev < win_prob (QcR c) stake total.
 Proof. intros phi c ev stake total D. apply w_won_sound; [exact D | apply Z.lt_le_incl, FACTOR_pos]. Qed.
 
-(* exit `false` before the cap: sound exactly when TAYLOR_ERR_FACTOR * next_term bounds the
-   tail, which is guaranteed for x <= 2 (and fails beyond ~2.66: Refuted.v) *)
+(* exit `false` before the cap: sound exactly where TAYLOR_ERR_FACTOR * next_term bounds the
+   tail of the series; that holds on the whole range x <= 53/20 = 2.65 (C08_error_term_range)
+   and fails from ~2.66 on (Refuted.v: x = 27/10, and phi_f = 0.95 with all the stake) *)
 Theorem C08_lost_sound : forall phi c ev stake total,
-  Dom c ev stake total -> xr (QcR c) stake total <= 2 ->
+  Dom c ev stake total -> xr (QcR c) stake total <= 53 / 20 ->
   lottery phi (Some c) ev stake total = Ok (Taylor Lost) ->
   win_prob (QcR c) stake total < draw ev.
 Proof.
   intros phi c ev stake total D Hx.
-  apply (w_lost_sound phi c ev stake total D FACTOR_pos). apply valid_le_2; exact Hx.
+  apply (w_lost_sound phi c ev stake total D). apply valid_sharp.
+  split; [apply (x_nonneg c ev); exact D | exact Hx].
 Qed.
+
+(* the analytic core, over the translated factor: for 0 <= x <= 53/20 and every n >= 1,
+   exp x <= S_n(x) + TAYLOR_ERR_FACTOR * x^(n+1)/(n+1)! *)
+Theorem C08_error_term_range : forall x n, 0 <= x <= 53 / 20 -> (1 <= n)%nat ->
+  exp x <= sum_f_R0 (fun k => x ^ k / INR (fact k)) n
+           + IZR TAYLOR_ERR_FACTOR * (x ^ (Datatypes.S n) / INR (fact (Datatypes.S n))).
+Proof. intros x n Hx Hn. exact (valid_sharp x Hx n Hn). Qed.
+
+(* the integer loop evaluated by the correspondence run IS the literal transcription *)
+Theorem C08_fast_model : forall pm pe c ev stake total,
+  run pm pe c ev stake total = run_literal pm pe c ev stake total.
+Proof. exact run_eq. Qed.
 
 (* reaching the iteration cap (answer `false`): only inside the band
    exp x - 2*3*x^(B+1)/(B+1)! <= q <= exp x + 3*x^(B+1)/(B+1)!,  B = TAYLOR_BOUND *)
 Theorem C08_cap : forall phi c ev stake total,
-  Dom c ev stake total -> xr (QcR c) stake total <= 2 ->
+  Dom c ev stake total -> xr (QcR c) stake total <= 53 / 20 ->
   lottery phi (Some c) ev stake total = Ok (Taylor Cap) ->
   let x := xr (QcR c) stake total in
   let band := x ^ (Datatypes.S (N.to_nat TAYLOR_BOUND)) / INR (fact (Datatypes.S (N.to_nat TAYLOR_BOUND))) in
   - (2 * IZR TAYLOR_ERR_FACTOR * band) <= qr ev - exp x <= IZR TAYLOR_ERR_FACTOR * band.
 Proof.
   intros phi c ev stake total D Hx.
-  apply (w_cap_band phi c ev stake total D FACTOR_pos (valid_le_2 _ Hx) BOUND_pos).
+  apply (w_cap_band phi c ev stake total D); [| exact BOUND_pos].
+  apply valid_sharp. split; [apply (x_nonneg c ev); exact D | exact Hx].
 Qed.
 
-(* exactness: for x <= 2 the boolean answer is the exact comparison unless the cap was hit *)
+(* exactness: for x <= 53/20 the boolean answer is the exact comparison unless the cap was hit *)
 Theorem C08_exact : forall phi c ev stake total v,
-  Dom c ev stake total -> xr (QcR c) stake total <= 2 ->
+  Dom c ev stake total -> xr (QcR c) stake total <= 53 / 20 ->
   lottery phi (Some c) ev stake total = Ok (Taylor v) -> v <> Cap ->
   (verdict_bool (Taylor v) = true <-> draw ev < win_prob (QcR c) stake total).
-Proof. exact exact_below_2. Qed.
+Proof. exact exact_in_range. Qed.
 
 (* more stake never turns won into lost (for every x >= 0, also where the lost exit is unsound) *)
 Theorem C08_mono_stake : forall phi c ev stake stake' total,
@@ -109,7 +124,7 @@ Proof. exact shortcut_window. Qed.
 Example C08_nonvacuous :
   let phi := dyadic 3602879701896397 (-54) in            (* 0.2 *)
   let c := dyadic (-8039593716390432) (-55) in          (* f64 ln(0.8) *)
-  Dom c (2 ^ 509) 1 3 /\ xr (QcR c) 1 3 <= 2 /\
+  Dom c (2 ^ 509) 1 3 /\ xr (QcR c) 1 3 <= 53 / 20 /\
   lottery phi (Some c) (2 ^ 505) 1 3 = Ok (Taylor Won) /\
   lottery phi (Some c) (2 ^ 509) 1 3 = Ok (Taylor Lost) /\
   lottery phi (Some c) 0 0 3 = Ok (Taylor Cap).
